@@ -23,8 +23,8 @@ def covered(parts, kinds, opts=None):
     for i in range(len(parts) - 1):
         if kinds[i] != "dir":
             return False  # below a symlink (or not reachable)
-    if kinds[-1] in ("symlink", "empty", "dir"):
-        return False
+    if kinds[-1] in ("symlink", "empty", "dir", "special"):
+        return False  # only regular, non-empty, non-symlink files are covered (FIFOs, sockets, devices are not)
     dirs = parts[:-1]
     unspecified = False
     for depth, d in enumerate(dirs):
